@@ -56,6 +56,8 @@ SubRepl == Unrelated \cup
              VDict(<<KV(VStr(<<122, 122>>), VList(<<VObj("tuple12", <<>>, NoneOpt)>>))>>),
              \* the placeholder `...` ("as declared") as a member, and under a key nothing declares
              VEllipsis, VDict(<<KV(VStr(<<122, 122>>), VEllipsis)>>),
+             \* non-finite floats are floats: as members they reach from_native
+             VInf, VList(<<VNegInf>>),
              \* keys whose text could mean something to a DSL or a formatter
              VDict(<<KV(VStr(<<97, 63>>), VBool(FALSE)), KV(VStr(<<123, 125>>), VInt(1))>>) }
 
